@@ -41,7 +41,9 @@ var faults = []string{"param-q", "zz-undefined", "(throw \"boom\")", "(nth [1] 9
 	// threading steps written as bare names (the failing call is assembled by the macro)
 	"(-> 5 first)", "(-> [[5]] first first first)", "(->> [1] count keys)", "(apply nth [[1] 9])", "(eval (list 'nth [1] 9))", "(eval '(zz-undefined 1))",
 	// the failing form is the list a reader macro stands for
-	"@5", "@\"not an atom\"", "@[1]", "^{:a 1} 5"}
+	"@5", "@\"not an atom\"", "@[1]", "^{:a 1} 5",
+	// the failing call is the rest list of a macro whose only parameter is & form and which returns it as it is
+	"(call-it nth [1] 9)", "(call-it first 5)"}
 
 type wrapper struct {
 	name string
@@ -103,6 +105,9 @@ func genCase(t *rapid.T) Case {
 	}
 	c.Deferred = gen.Uniform(t, "deferred", 3) == 0
 	var forms []string
+	if strings.HasPrefix(c.Fault, "(call-it ") {
+		forms = append(forms, "(defmacro call-it (fn (& form)\n  form))")
+	}
 	if c.Fault == "param-q" {
 		// the undefined name also occurs earlier in the text, legally, as a parameter
 		forms = append(forms, "(def uses-param (fn (param-q)\n  (+ param-q 1)))")
@@ -114,7 +119,14 @@ func genCase(t *rapid.T) Case {
 	faulty := expr
 	var later []string
 	if c.Deferred {
-		switch gen.Uniform(t, "defkind", 7) {
+		switch gen.Uniform(t, "defkind", 9) {
+		case 7, 8: // the fault runs while a macro, defined here, expands a call that stands in a later form
+			faulty = "(defmacro later-m (fn (p)\n  (do\n    " + expr + "\n    p)))"
+			if gen.Uniform(t, "mlater", 2) == 0 {
+				later = append(later, "(later-m 1)")
+			} else {
+				later = append(later, "(let (z 2)\n  (list z\n    (later-m 1)))")
+			}
 		case 4: // the later call is the body of a try without catch
 			faulty = "(def later-fn (fn (p)\n  " + expr + "))"
 			later = append(later, "(try\n  (later-fn 1)\n  (finally\n    1))")
